@@ -22,10 +22,11 @@ def S(i):
 X = {"n": "X"}
 
 
-def C(site, arg, kw=NULL, star=False, dstar=False, poskw=False, asvalue=False):
+def C(site, arg, kw=NULL, star=False, dstar=False, poskw=False, asvalue=False, kwfirst=False):
+    # kwfirst (with poskw and a keyword): the keywords in the other order, site(k=<kw>, x=<arg>)
     # poskw: the positional parameter is given by keyword (x=<arg>)
     # asvalue: recurse / the own name used as a value and called elsewhere: list(map(recurse, [<arg>]))[0]
-    return {"n": "C", "site": site, "arg": arg, "kw": kw, "star": star, "dstar": dstar, "poskw": poskw, "asvalue": asvalue}
+    return {"n": "C", "site": site, "arg": arg, "kw": kw, "star": star, "dstar": dstar, "poskw": poskw, "asvalue": asvalue, "kwfirst": kwfirst}
 
 
 def sites(arg_leaves, kw_leaves, which=("R", "N", "S")):
@@ -41,6 +42,7 @@ def sites(arg_leaves, kw_leaves, which=("R", "N", "S")):
                 out.append(C(s, a, kw=k))
                 out.append(C(s, a, kw=k, dstar=True))
                 out.append(C(s, a, kw=k, poskw=True))
+                out.append(C(s, a, kw=k, poskw=True, kwfirst=True))
     return out
 
 
@@ -64,7 +66,8 @@ def contexts(c, cx, rng=None):
         {"n": "LC", "elt": X, "items": [t1, c], "cond": NULL, "gen": True},
         {"n": "Lam", "body": cx, "arg": t1}, {"n": "Lam", "body": X, "arg": c},
         {"n": "Def", "body": cx, "arg": t2}, {"n": "Def", "body": {"n": "Add", "a": cx, "b": X}, "arg": c},
-        {"n": "F", "a": c}, {"n": "W", "a": c}, {"n": "Add", "a": {"n": "W", "a": c}, "b": t1},
+        {"n": "F", "a": c}, {"n": "W", "a": c}, {"n": "Sh", "a": c, "form": "def"}, {"n": "Sh", "a": c, "form": "lam"},
+        {"n": "Cls", "body": cx, "arg": t2}, {"n": "Add", "a": {"n": "Sh", "a": t1, "form": "def"}, "b": c}, {"n": "Add", "a": {"n": "W", "a": c}, "b": t1},
         C("R", c), C("N", c), C("S", c, kw=t1), C("N", t1, kw=c),
         C("R", t1, kw=C("N", t2, kw=c)), C("N", C("R", c), kw=C("S", t2, kw=t1)),
         {"n": "Add", "a": B(3), "b": c}, {"n": "Add", "a": c, "b": B(3)}, C("R", B(3)), C("N", t1, kw=B(3)),
@@ -127,9 +130,9 @@ def has_x_free(t, bound=False):
     if n == "LC":
         return any(has_x_free(i, bound) for i in t["items"]) or has_x_free(t["elt"], True) or (
             t["cond"]["n"] != "null" and has_x_free(t["cond"], True))
-    if n in ("Lam", "Def"):
+    if n in ("Lam", "Def", "Cls"):
         return has_x_free(t["arg"], bound) or has_x_free(t["body"], True)
-    if n in ("F", "W"):
+    if n in ("F", "W", "Sh"):
         return has_x_free(t["a"], bound)
     return True
 
@@ -155,6 +158,10 @@ class Renderer:
         if n == "C":
             site = "N" if self.only_next else t["site"]
             callee = {"R": "recurse", "N": "call_next", "S": self.fname}[site]
+            if t.get("kwfirst") and t["kw"]["n"] != "null":
+                k = self.r(t["kw"])       # (rendered in evaluation order: the inner-function counters follow it)
+                a = self.r(t["arg"])
+                return f"{callee}(k={k}, x={a})"
             a = self.r(t["arg"])
             if t.get("asvalue") and site != "N":
                 return f"list(map({callee}, [{a}]))[0]"
@@ -188,6 +195,20 @@ class Renderer:
             body = self.r(t["body"])
             self.prelude.append(f"def {name}(x_): return {body}")
             return f"{name}({self.r(t['arg'])})"
+        if n == "Sh":
+            # a nested def / lambda whose own parameters are called like recurse and the overloaded function
+            if t["form"] == "def":
+                self.nd += 1
+                name = f"shadow{self.nd}"
+                self.prelude.append(f"def {name}(recurse, {self.fname}, v_): return {self.fname}(recurse(v_))")
+                return f"{name}(IDENT, IDENT, {self.r(t['a'])})"
+            return f"(lambda recurse, {self.fname}, v_: recurse({self.fname}(v_)))(IDENT, IDENT, {self.r(t['a'])})"
+        if n == "Cls":
+            self.nd += 1
+            name = f"K{self.nd}_"
+            body = self.r(t["body"])
+            self.prelude.append(f"class {name}: run = lambda self_, x_: {body}")
+            return f"{name}().run({self.r(t['arg'])})"
         if n == "F":
             return f"int(f\"{{{self.r(t['a'])}}}\")"
         if n == "W":
@@ -196,7 +217,7 @@ class Renderer:
         raise ValueError(n)
 
 
-WRAPPERS = ["plain", "self", "closure", "defaults", "generator"]
+WRAPPERS = ["plain", "self", "closure", "defaults", "generator", "future"]
 
 
 def prog_hash(prog):
@@ -225,8 +246,14 @@ def render(prog, wrapper):
     ind = "    " if wrapper == "closure" else ""
     L = []
     lit = None
+    if wrapper == "future":
+        # postponed evaluation of annotations: the nested function's annotations name nothing that exists
+        L.append("from __future__ import annotations")
+        R.prelude.append("def annotated_(v: NotDefinedAnywhere_) -> NotDefinedAnywhere_: return v")
+        expr = f"annotated_({expr})"
     if wrapper == "closure":
         L.append("def make(c_):")
+        L.append("    late_ = 0")
         # a multi-line string literal in an indented definition: its text belongs to the program
         # (continuation line indented deeper than the def, or not at all)
         lit = "ab\n" + (" " * 12 if prog_hash(prog) % 2 else "") + "cd"
@@ -240,6 +267,9 @@ def render(prog, wrapper):
         L.append(f'{ind}    ML_ = """' + lit + '"""')
     if wrapper == "defaults":
         L.append(f"{ind}    type = str     # a local that shadows the builtin the rewritten call sites rely on")
+    if wrapper == "closure":
+        L.append(f"{ind}    if DEPTH[0] < 0:")
+        L.append(f"{ind}        late_()")
     L.append(f"{ind}    DEPTH[0] += 1")
     L.append(f"{ind}    try:")
     for p in R.prelude:
@@ -251,6 +281,7 @@ def render(prog, wrapper):
     L.append(f"{ind}    finally:")
     L.append(f"{ind}        DEPTH[0] -= 1")
     if wrapper == "closure":
+        L.append("    del late_      # a closure variable of m_top that holds nothing when the function is built")
         L.append("    return m_top")
     L.append(f"def m_next({slf}x: int{extra_pos}, *, k: int = 0{extra_kw}):")
     L.append("    LOG.append(f'N{x}k{k}')")
@@ -284,9 +315,9 @@ def no_walrus(t):
         return all(no_walrus(t[k]) for k in ("c", "a", "b"))
     if n == "LC":
         return all(no_walrus(i) for i in t["items"]) and no_walrus(t["elt"]) and no_walrus(t["cond"])
-    if n in ("Lam", "Def"):
+    if n in ("Lam", "Def", "Cls"):
         return no_walrus(t["arg"])
-    if n == "F":
+    if n in ("F", "Sh"):
         return no_walrus(t["a"])
     return False
 
